@@ -19,7 +19,7 @@ func init() { Registry["C11"] = runC11 }
 var c11Rel = []string{"opener", "Opener", "follow", "referrer", "no opener", "noopener-x", "xnoopener", "opener nofollow", "nofollo", "noreferre", "tag\u00a0", "author\u3000", "me\x0b", "x\u2028", "tag\u0085", "nofollowx\u00a0", "tag ", "tag\t", "nofollow", "noopener", "noreferrer", "nofollow noopener", "NOFOLLOW", "NoReferrer", "NOOPENER", "xnofollowx", "noopenerx", "xnoreferrer", "nofollow-x", "author", "a b",
 	"nofollow\tnoreferrer", "nofollow\nx", "nofollow nofollow", "", " ", "external nofollow noopener noreferrer", "noreferrernofollow", "x nofollow", "nofollow\x0bx", "me  noopener ", "nofollownoopener noreferrer", "é"}
 
-var c11Href = []string{"http://example.org/", "https://example.org:8080/a?b=c#d", "//cdn.example.net/x", "/local/path", "path/only", "#frag", "?q=1", "mailto:a@example.org", "HTTP://EXAMPLE.ORG", "http://user@example.org/", "", "ftp://example.org/", "http:/one-slash", "http:opaque", "javascript:alert(1)", "http://[::1]/"}
+var c11Href = []string{"%zz", "http://a b/", "http://[::1", "http://example.org:bad/", "http://%41example.org/", "http://exa%mple.org/x", ":", "http://example.org/%", "http://example.org/", "https://example.org:8080/a?b=c#d", "//cdn.example.net/x", "/local/path", "path/only", "#frag", "?q=1", "mailto:a@example.org", "HTTP://EXAMPLE.ORG", "http://user@example.org/", "", "ftp://example.org/", "http:/one-slash", "http:opaque", "javascript:alert(1)", "http://[::1]/"}
 
 var c11Target = []string{"_blank", "_self", "_BLANK", "", "frame1", "_blank ", "_top"}
 
@@ -176,16 +176,17 @@ func c11Judge(cs *core.Case, env *Env, in, out string, lc core.LocalCounts) bool
 }
 
 func runC11(ctx *core.Ctx) {
-	ctx.Rule = "enumerated product: all 32 combinations of the five link options x rel rule (unpatterned | SpaceSeparatedTokens | none | through an element pattern) x target rule (allowed | not) x element (a, area, link) x every sequence of <= L attributes over {href, rel, target} with multiplicity <= 2, values drawn per instance from pools that contain the required words as tokens, as substrings of other tokens, in upper case, duplicated, TAB/LF/NBSP/VT separated; oracle reads the first rel/target/href of each output link as a browser does; non-trivial = an output link carrying an href was judged, distinct by (policy, input)"
+	ctx.Rule = "enumerated product: all 32 combinations of the five link options (x URL checking left on | switched off again afterwards) x rel rule (unpatterned | SpaceSeparatedTokens | none | through an element pattern) x target rule (allowed | not) x element (a, area, link) x every sequence of <= L attributes over {href, rel, target} with multiplicity <= 2, values drawn per instance from pools that contain the required words as tokens, as substrings of other tokens, in upper case, duplicated, TAB/LF/NBSP/VT separated; oracle reads the first rel/target/href of each output link as a browser does; non-trivial = an output link carrying an href was judged, distinct by (policy, input)"
 	ctx.Assume("host-ness is judged only where RFC 3986 and WHATWG agree", "a without href and target values differing from _blank in case are not judged", "rel tokens are split on ASCII whitespace and compared ASCII-case-insensitively")
 	ctx.Exhaustive(false)
 	seqs := c11Seqs(ctx.N(4, 5))
 	K := ctx.N(10, 24)
 	swNames := []string{spec.SwNoFollow, spec.SwNoFollowFQ, spec.SwNoReferrer, spec.SwNoReferrerFQ, spec.SwTargetBlank}
-	ctx.Run("options", 32*4*2, func(cs *core.Case) {
+	ctx.Run("options", 32*4*2*2, func(cs *core.Case) {
 		mask := cs.Index % 32
 		relRule := (cs.Index / 32) % 4
-		targetRule := cs.Index / 128
+		targetRule := (cs.Index / 128) % 2
+		parseableOffAgain := cs.Index/256 == 1 // URL checking switched off after the link options: every href survives as written
 		ops := []spec.Op{{K: spec.KNew}, {K: spec.KAllowAttrs, Attrs: []string{"href"}, Scope: "els", Names: []string{"a", "area", "link"}},
 			{K: spec.KSchemes, Names: []string{"http", "https", "mailto", "ftp"}}, {K: spec.KSwitch, Names: []string{spec.SwRelative}, B: true}}
 		switch relRule {
@@ -208,6 +209,9 @@ func runC11(ctx *core.Ctx) {
 			if mask&(1<<uint(b)) != 0 {
 				ops = append(ops, spec.Op{K: spec.KSwitch, Names: []string{n}, B: true})
 			}
+		}
+		if parseableOffAgain {
+			ops = append(ops, spec.Op{K: spec.KSwitch, Names: []string{spec.SwParseable}, B: false})
 		}
 		env := NewEnv(ops)
 		lc := core.LocalCounts{}
